@@ -377,6 +377,14 @@ pub fn gen(rng: &mut Rng, focus: SFocus) -> ServerScn {
             h.steps = vec![HStep::Never];
             h.run = RunMode::Execute;
         }
+        // sometimes the peer re-sends the first request's id a year or more later, while the
+        // original is (as far as its deadline goes) still being served
+        if rng.chance(300) {
+            let days = *rng.pick(&[366u64, 400, 500]);
+            let delay = (days.saturating_sub(total_days)).max(1) * 86_400_000;
+            script.push(PeerAct { delay_ms: delay, kind: PeerKind::Req { id: IdRef::DupOf(0), deadline: Dl::Secs(30 * 86_400), sampled: false, untraced: false } });
+            handlers.push(HandlerPlan { steps: vec![HStep::Never], err: false, run: RunMode::Execute });
+        }
         stalls.clear();
     }
     let mut faults = vec![];
@@ -1329,6 +1337,11 @@ pub fn check(scn: &ServerScn, log: &[Ev], sim: &Sim, node: u8) -> Vec<Violation>
                 .unwrap_or(true);
             if next_idle.is_some() && !failed_first {
                 v.push(viol("C08", "handler-count", &["not-yielded"], format!("request tag {} (id {}) was read at seq {} but never offered to the application", i.tag, i.id, r)));
+                if limit.is_some() {
+                    // with a limit a read request is either handed over or refused with exactly
+                    // one throttle response: this one got neither
+                    v.push(viol("C12", "throttle-count", &["none"], format!("request tag {} (id {}) was read at seq {} and neither handed to the application nor answered with a throttle response", i.tag, i.id, r)));
+                }
             }
         }
         let handler_resps = i.resp.iter().filter(|x| !x.2).count();
